@@ -28,7 +28,7 @@ import (
 // order in the repo, made a recorded choice by the rewriter) is enumerated through the salt.
 
 func init() {
-	Register(&PropertyDef{ID: "C17", Strata: []string{"failover", "rename", "gc", "failover-both", "gc-live", "gccmd", "gccmd-failover", "gccmd-concurrent", "modeswitch"}, Run: runC17, StepCap: 200000})
+	Register(&PropertyDef{ID: "C17", Strata: []string{"failover", "rename", "gc", "failover-both", "gc-live", "gccmd", "gccmd-failover", "gccmd-concurrent", "modeswitch", "newoutput"}, Run: runC17, StepCap: 200000})
 }
 
 const cpIndexKey = "redis-gunyu-checkpoint-hash" // documented: run id -> checkpoint key name, database 0
@@ -283,6 +283,9 @@ func describeKeyspace(srv *simredis.Server) string {
 func runC17(r *Run, stratum string) *Violation {
 	if stratum == "modeswitch" {
 		return runC17ModeSwitch(r, stratum)
+	}
+	if stratum == "newoutput" {
+		return runC17NewOutput(r, stratum)
 	}
 	g := r.Gen()
 	c := &c17sim{r: r}
